@@ -34,6 +34,9 @@ type c20Gen struct {
 	Dt     int `json:"dt"`     // seconds between the last block of the exported chain and the new genesis time
 	Blocks int `json:"blocks"` // blocks run on the new chain before IT is exported (next generation); 0 = exported right away
 	Long   int `json:"long"`   // 0: 5 s blocks; 1: the first block is 31 minutes later (30-min epoch rolls over); 2: a day later
+	// Rel: genesis time of the new chain relative to the start_time of the scheduled epoch, while that epoch has not
+	// started: 0 = Dt as is, 1 = one second BEFORE the scheduled start, 2 = exactly AT it, 3 = Dt seconds AFTER it
+	Rel int `json:"rel,omitempty"`
 }
 
 type c20Input struct {
@@ -44,13 +47,15 @@ type c20Input struct {
 	EmptyWl bool `json:"empty_wl,omitempty"`
 	// Gens: ITERATED round trips. Empty = one generation at the exported height (what every input meant before round 7).
 	Gens []c20Gen `json:"gens,omitempty"`
+	// Sched: the chain's own genesis defines an epoch scheduled for genesis time + c20SchedOffsets[Sched] (0 = none)
+	Sched int `json:"sched,omitempty"`
 }
 
 // c20Run: the history on chain A, then generation after generation: dump + export the current chain, InitChain a fresh
 // app from the export, dump + export that one (one trace record per generation: the full single-round-trip observation),
 // run the generation's blocks on the new chain and go on with it.
 func c20Run(t *testing.T, in c20Input, emit func(obs, extra map[string]interface{})) {
-	w := newC20World(t, in.EmptyWl)
+	w := newC20World(t, in.EmptyWl, in.Sched)
 	for _, op := range in.Ops {
 		w.apply(op)
 	}
@@ -113,6 +118,31 @@ func c20Generation(t *testing.T, w *c20World, c *Chain, gi int, g c20Gen, emit f
 		t.Fatalf("export (generation %d): %v", gi, err)
 	}
 	importTime := c.Time.Add(time.Duration(1+abs(g.Dt)%100000) * time.Second)
+	schedClass := ""
+	if se, err := a1.EpochsKeeper.GetEpochInfo(ctx1, c20SchedEpoch); err == nil && !se.EpochCountingStarted {
+		switch abs(g.Rel) % 4 {
+		case 1:
+			if se.StartTime.Add(-time.Second).After(c.Time) {
+				importTime = se.StartTime.Add(-time.Second)
+			}
+		case 2:
+			if se.StartTime.After(c.Time) {
+				importTime = se.StartTime
+			}
+		case 3:
+			if se.StartTime.After(c.Time) {
+				importTime = se.StartTime.Add(time.Duration(1+abs(g.Dt)%100000) * time.Second)
+			}
+		}
+		switch {
+		case importTime.Before(se.StartTime):
+			schedClass = "before"
+		case importTime.Equal(se.StartTime):
+			schedClass = "at"
+		default:
+			schedClass = "after"
+		}
+	}
 	var ih int64
 	switch abs(g.IH) % 4 {
 	case 1:
@@ -135,7 +165,7 @@ func c20Generation(t *testing.T, w *c20World, c *Chain, gi int, g c20Gen, emit f
 	})
 	obs := map[string]interface{}{"h": ctxHeight, "t": importTime.UnixMilli(), "gen": gi}
 	extra := map[string]interface{}{"failed_ops": w.failed, "blocks": a1.LastBlockHeight(), "strings": stringClasses(ctx1, a1), "devgas": w.dg.classes(),
-		"gen": gi, "ih": abs(g.IH) % 4}
+		"gen": gi, "ih": abs(g.IH) % 4, "sched": schedClass}
 	e1, canon1 := parseExport(exp1.AppState, a1.AppCodec(), r)
 	obs["dg"] = w.dg.emit(r, gi)
 	if importPanic != "" {
@@ -489,9 +519,10 @@ func genC20Case(r *Rng) c20Input {
 	// (none / 1: InitChain context height 0; the exported height; a later one), after 0..5 blocks on the previous import
 	var gens []c20Gen
 	for i := 1 + r.Pick(3, 4, 2); i > 0; i-- {
-		gens = append(gens, c20Gen{IH: r.Pick(3, 1, 3, 1), Dt: r.Range(1, 90000), Blocks: r.Pick(3, 2, 2, 1, 1, 1), Long: r.Pick(4, 2, 1)})
+		gens = append(gens, c20Gen{IH: r.Pick(3, 1, 3, 1), Dt: r.Range(1, 90000), Blocks: r.Pick(3, 2, 2, 1, 1, 1), Long: r.Pick(4, 2, 1), Rel: r.Pick(3, 2, 1, 4)})
 	}
-	return c20Input{Ops: ops, Dt: gens[0].Dt, Gens: gens}
+	// a future-dated epoch definition in the chain's genesis: none / +1 h / +3 d / +30 d / +400 d
+	return c20Input{Ops: ops, Dt: gens[0].Dt, Gens: gens, Sched: r.Pick(2, 1, 2, 2, 2)}
 }
 
 func boolInt(b bool) int {
@@ -581,6 +612,10 @@ func c20Openers() []c20Input {
 		{Ops: full, Dt: 3600, Gens: []c20Gen{{IH: 0, Dt: 3600, Blocks: 2}, {IH: 0, Dt: 60, Blocks: 1, Long: 1}, {IH: 2, Dt: 60}}},
 		{Ops: []c20Op{{K: "epoch", A: 0}}, Dt: 10, Gens: []c20Gen{{IH: 0, Dt: 10, Blocks: 2}, {IH: 1, Dt: 10}, {IH: 3, Dt: 10}}},
 		{Ops: []c20Op{}, Dt: 10, Gens: []c20Gen{{IH: 1, Dt: 10}, {IH: 0, Dt: 10, Blocks: 3, Long: 2}, {IH: 0, Dt: 10}}},
+		// a scheduled (not yet started, future-dated) epoch: imported before, exactly at and after its start date
+		{Ops: []c20Op{{K: "block", A: 1}}, Dt: 10, Sched: 2, Gens: []c20Gen{{IH: 2, Dt: 10, Rel: 1, Blocks: 1}, {IH: 0, Dt: 10, Rel: 2}}},
+		{Ops: []c20Op{{K: "epoch", A: 0}}, Dt: 10, Sched: 3, Gens: []c20Gen{{IH: 2, Dt: 500, Rel: 3, Blocks: 2}, {IH: 2, Dt: 10}}},
+		{Ops: full, Dt: 10, Sched: 4, Gens: []c20Gen{{IH: 0, Dt: 10, Rel: 0, Blocks: 1}, {IH: 2, Dt: 77, Rel: 3}}},
 		{Ops: devgas, Dt: 900},
 		{Ops: strs, Dt: 4242},
 		{Ops: shared, Dt: 777},
